@@ -127,6 +127,7 @@ type Term struct {
 	Name   string
 	ID     int
 	KZ, KO uint64 // known-zero / known-one bit masks (bit-vectors only)
+	Hard   bool   // contains a multiplier / divider / float operation (one-shot solving is used)
 }
 
 func (t *Term) IsConst() bool { return t.Op == OConst }
@@ -221,6 +222,15 @@ func (c *Ctx) mk(t *Term) *Term {
 		}
 	} else if t.Op == OConst && t.S.K == KBV {
 		t.KZ, t.KO = ^t.C&mask(t.S.W), t.C&mask(t.S.W)
+	}
+	switch t.Op {
+	case OBvMul, OBvUDiv, OBvURem, OBvSDiv, OBvSRem, OFpAdd, OFpSub, OFpMul, OFpDiv, OFpFma, OFpSqrt, OFpToFp, OFpFromSBV, OFpFromUBV, OFpToSBV, OFpToUBV, OFpRti:
+		t.Hard = true
+	}
+	for _, a := range t.Args {
+		if a.Hard {
+			t.Hard = true
+		}
 	}
 	var sb strings.Builder
 	fmt.Fprintf(&sb, "%d|%d|%d|%x|%d|%d|%s", t.Op, t.S.K, t.S.W, t.C, t.P1, t.P2, t.Name)
